@@ -400,6 +400,8 @@ class CompiledTemplateManager(object):
         self.template_compiler = TemplateCompiler()
         self.cache_max = cache_max
         self.cache = {}
+        # The table group each cached template was compiled with
+        self.table_groups = {}
 
     def get_or_compile(self, template, table_group):
         """
@@ -415,16 +417,26 @@ class CompiledTemplateManager(object):
         log.debug('Getting compiled template of key: {}'.format(key_of_compiled_template))
         compiled_template = self.cache.get(key_of_compiled_template, None)
 
+        # A compiled template is only valid for the tables it was compiled
+        # with. The table group of a key is rebuilt when in-stream table
+        # definitions arrive (the table group cache is invalidated), so the
+        # cached version is used only if it was compiled with this very table
+        # group object.
+        if compiled_template is not None and self.table_groups.get(key_of_compiled_template) is not table_group:
+            compiled_template = None
+
         if compiled_template is None:
             log.debug('Cached version not available. Compiling now ...')
             compiled_template = self.template_compiler.process(template, table_group)
 
             if self.cache_max > 0:
                 # TODO: Better cache invalidate algorithm
-                if len(self.cache) >= self.cache_max:
-                    self.cache.popitem()
+                if key_of_compiled_template not in self.cache and len(self.cache) >= self.cache_max:
+                    dropped_key, _ = self.cache.popitem()
+                    self.table_groups.pop(dropped_key, None)
 
                 self.cache[key_of_compiled_template] = compiled_template
+                self.table_groups[key_of_compiled_template] = table_group
 
         return compiled_template
 
